@@ -25,11 +25,13 @@ MANIFEST = dict(
           "equals that of the object freshly constructed at the translated position; the returned object is a different object, attribute-wise equal, and shares no mutable state with the receiver or with v; v is unchanged; "
           "move(v) then move(-v) restores every attribute; a non-Vector argument raises and leaves the receiver unchanged (all seven types). Since the re-established representation invariant is the precondition of every query contract, "
           "any sequence of moves leaves every query answering as on a fresh object."),
-    note=("ConvexPolygon.move and ConvexPolyhedron.move (rebuild sorted vertex tuples / hash sets) are not proved in this revision; their non-Vector rejection is checked. A1, A5."),
+    note=("ConvexPolygon.move is proved for n = 3, 4 for the receiver's state (vertices, plane, centre; the returned object is what the constructor builds from the receiver's new vertices - the constructor enters by that contract); "
+          "ConvexPolyhedron.move (rebuilds hash sets and pyramids) and mixed histories of 1-6 moves interleaved with deep copies and queries (==, hash, membership, intersection, measures, volume()) on all seven types, receiver and returned object "
+          "against freshly constructed objects, are a labelled bounded stand-in (not counted as proved). A1, A5."),
     design_ref="DESIGN.md section 9 (C07)",
 )
 EXPLANATION = "move contracts proved attribute-wise against the fresh construction; history claims follow by induction from the re-established invariant"
-BOUNDED_ONLY = ["Geometry3D.geometry.polygon:ConvexPolygon.move", "Geometry3D.geometry.polyhedron:ConvexPolyhedron.move"]
+BOUNDED_ONLY = ["Geometry3D.geometry.polyhedron:ConvexPolyhedron.move", "Geometry3D.geometry.polygon:ConvexPolygon.move (n > 4, returned object)"]
 ASSUMES = ["A1", "A2", "A5", "A6"]
 
 
@@ -58,7 +60,7 @@ def move_harness(kind):
         vv = SP.vec(v)
         obj0 = copy.deepcopy(obj)
         bv = vc.snapshot(v)
-        out = vc.call(obj.move, v)
+        out = vc.call(obj.move, v, _mutates=(obj,))
         vc.ensure("%s.move(Vector) does not raise" % kind, out.returned)
         if not out.returned:
             vc.note(repr(out.value))
@@ -81,7 +83,7 @@ def move_harness(kind):
         vc.ensure("frame: the vector is unchanged", vc.snapshot(v) == bv)
         vc.ensure("receiver shares no mutable state with the vector", not (mutable_ids(obj) & mutable_ids(v)))
         # moving back restores the original attribute-wise
-        back = vc.call(obj.move, -v)
+        back = vc.call(obj.move, -v, _mutates=(obj,))
         vc.ensure("move(-v) does not raise", back.returned)
         if back.returned:
             vc.ensure("move(v) then move(-v) restores every attribute", sem_equal(obj, obj0))
@@ -120,3 +122,205 @@ def groups(tier):
                     (("Point", "point"), ("Line", "line"), ("Plane", "plane"), ("Segment", "segment"), ("HalfLine", "halfline"), ("ConvexPolygon", "polygon"), ("ConvexPolyhedron", "polyhedron"))],
                     world="CONFIG", timeout_s=120, patches=False))
     return gs
+
+
+# ---------------------------------------------------------------------------
+# ConvexPolygon.move: the receiver's state (vertices, plane, centre) per shape; the returned object is built by the
+# constructor, which enters by its contract (an opaque polygon built from exactly the receiver's new vertices)
+# ---------------------------------------------------------------------------
+
+class _BuiltFrom(object):
+    def __init__(self, pts, args):
+        self.pts, self.args = pts, args
+
+
+def polygon_move_harness(n):
+    def h(vc):
+        import importlib
+        g = C.G()
+        PG = importlib.import_module("Geometry3D.geometry.polygon")
+        pg = C.polygon(vc, "K", n, convex=True)
+        v = C.V(vc, "v")
+        vv = SP.vec(v)
+        old_pts = [SP.vec(p) for p in pg.points]
+        d1, d2 = SP.sub(old_pts[1], old_pts[0]), SP.sub(old_pts[2], old_pts[0])
+        bv = vc.snapshot(v)
+        built = []
+        real_cls = PG.ConvexPolygon
+
+        def ctor_stub(pts, *a, **k):  # contract stub of ConvexPolygon(...) as called inside move
+            b = _BuiltFrom(tuple(pts), (a, k))
+            built.append(b)
+            return b
+
+        PG.ConvexPolygon = ctor_stub
+        try:
+            out = vc.call(real_cls.move, pg, v, _mutates=(pg,))
+        finally:
+            PG.ConvexPolygon = real_cls
+        vc.ensure("ConvexPolygon.move(Vector) does not raise", out.returned)
+        if not out.returned:
+            vc.note(repr(out.value))
+            return
+        new_pts = [SP.vec(p) for p in pg.points]
+        vc.ensure("receiver: every vertex is translated by v (same cyclic order)", And(len(new_pts) == n, *[SP.veq(a, SP.add(b, vv)) for a, b in zip(new_pts, old_pts)]) if len(new_pts) == n else False)
+        fresh = vc.call(g.Plane, g.Point(*SP.add(old_pts[0], vv)), g.Point(*SP.add(old_pts[1], vv)), g.Point(*SP.add(old_pts[2], vv)))
+        if fresh.returned:
+            vc.ensure("receiver: plane equals the plane freshly constructed from the translated vertices", sem_equal(pg.plane, fresh.value))
+        else:
+            vc.fail("fresh plane construction raised %r" % (fresh.value,))
+        cx = [sum(p[k] for p in old_pts) / n + vv[k] for k in range(3)]
+        vc.ensure("receiver: centre equals the mean of the translated vertices", SP.veq(SP.vec(pg.center_point), cx))
+        vc.ensure("returned object is built by the constructor from exactly the receiver's new vertices",
+                  len(built) == 1 and out.value is built[0] and len(built[0].pts) == n and all(p is q for p, q in zip(built[0].pts, pg.points)) and built[0].args == ((), {}))
+        vc.ensure("frame: the vector is unchanged", vc.snapshot(v) == bv)
+        vc.ensure("receiver shares no mutable state with the vector", not (mutable_ids(pg) & mutable_ids(v)))
+
+    return h
+
+
+def _more_groups(tier):
+    from props.C01 import coord_stubs
+    cs = coord_stubs() + [(C.T_LENGTH, C.x_length), (C.T_NORMALIZED, C.x_normalized)]
+    gs = []
+    for n in (3, 4):
+        gs.append(Group("ConvexPolygon.move[n=%d, receiver state]" % n, polygon_move_harness(n), ["Geometry3D.geometry.polygon:ConvexPolygon.move", "Geometry3D.geometry.polygon:ConvexPolygon._get_center_point"],
+                        stubs=cs, world="COORD", timeout_s=600, prove_ms=30000))
+    return gs
+
+
+_groups_flat = groups
+
+
+def groups(tier):
+    return _groups_flat(tier) + _more_groups(tier)
+
+
+# ---------------------------------------------------------------------------
+# bounded stand-in: histories of 1-6 moves on all seven types, receiver and return value against fresh objects
+# ---------------------------------------------------------------------------
+
+def bounded_histories(seed, n_obj, n_hist):
+    import copy as _copy
+    import math
+    from fractions import Fraction as Fr
+    from g3dvc import oracle as O
+    from g3dvc import catalogue as K
+    from g3dvc.engine import load_repo
+    g = load_repo()
+    rng = K.make_rng(seed + 7)
+    ev = 0
+    classes = set()
+    failures = []
+    samples = []
+
+    def fail(klass, what, case):
+        if len(failures) < 6 and klass not in [f["class"] for f in failures]:
+            failures.append({"class": klass, "what": what, "case": case})
+
+    def close(x, y):
+        return abs(x - y) <= 1e-9 * max(1.0, abs(y))
+
+    def probes(exact_obj):
+        """sample points: feature points of the object plus an offset point"""
+        pts = list(O.features(exact_obj)[0])[:6]
+        c = O.centroid(pts) if pts else (0, 0, 0)
+        return pts + [c, O.add(c, (Fr(1, 2), Fr(1, 3).limit_denominator(4), Fr(-1, 4)))]
+
+    objs = []
+    for kind in ("Point", "Line", "HalfLine", "Segment", "Plane"):
+        for o in K.flat_objects(kind, rng, n_obj):
+            R, t, k = K.random_pose(rng)
+            objs.append(K.transform(o, R, t, k))
+    objs += list(K.polygons(rng, n_obj)) + list(K.polyhedra(rng, n_obj))
+    vecs = [(0, 0, 0), (1, 0, 0), (0, -2, 0), (0, 0, 3)]
+    for ex in objs:
+        for hnum in range(n_hist):
+            kind = ex[0]
+            recv = O.to_lib(ex, "float")
+            total = (Fr(0), Fr(0), Fr(0))
+            steps = rng.randint(1, 6)
+            hist = []
+            for step in range(steps):
+                v = rng.choice(vecs) if rng.random() < 0.3 else tuple(Fr(rng.randint(-6, 6), rng.choice((1, 2))) for _ in range(3))
+                hist.append([str(c) for c in v])
+                if rng.random() < 0.25:
+                    recv = _copy.deepcopy(recv)  # histories interleave deep copies
+                target = recv if (step == 0 or rng.random() < 0.7) else ret  # later moves sometimes act on the returned object
+                total = O.add(total, v)
+                try:
+                    ret = target.move(g.Vector(*[O.to_number(c, "float") for c in v]))
+                    recv = target
+                except Exception as e:
+                    fail("%s:raise" % kind, "move raised %r" % (e,), dict(obj=str(ex)[:200], history=hist))
+                    break
+                ev += 1
+                klass = "%s:%d moves" % (kind, step + 1)
+                classes.add(klass)
+                fresh_exact = K.transform(ex, K.IDENTITY, total, 1)
+                fresh = O.to_lib(fresh_exact, "float")
+                case = dict(kind=kind, obj=[str(x)[:300] for x in ex[1:]], history=hist)
+                for name, o in (("receiver", recv), ("returned", ret)):
+                    try:
+                        ok_eq = (o == fresh) and (fresh == o)
+                        ok_hash = hash(o) == hash(fresh) if kind != "Point" or True else True
+                    except Exception as e:
+                        fail(klass, "%s: == / hash raised %r" % (name, e), case)
+                        continue
+                    if not ok_eq:
+                        fail(klass, "%s != object freshly constructed at the translated position" % name, case)
+                    elif not ok_hash:
+                        fail(klass, "%s == fresh object but the hashes differ" % name, case)
+                    if kind != "Point":
+                        for q in probes(fresh_exact):
+                            qp = g.Point(*[O.to_number(c, "float") for c in q])
+                            try:
+                                if (qp in o) != (qp in fresh):
+                                    fail(klass, "%s: membership of %s differs from the fresh object" % (name, [float(c) for c in q]), case)
+                                    break
+                            except Exception as e:
+                                fail(klass, "%s: membership raised %r" % (name, e), case)
+                                break
+                        probe_line = g.Line(g.Point(*[O.to_number(c, "float") for c in probes(fresh_exact)[0]]), g.Vector(1, 2, 2))
+                        try:
+                            r1, r2 = g.intersection(o, probe_line), g.intersection(fresh, probe_line)
+                            if not (O.matches(r1, None, 1e-7)[0] if r2 is None else (r1 is not None and O.from_lib(r1)[0] == O.from_lib(r2)[0])):
+                                fail(klass, "%s: intersection with a probe line differs from the fresh object" % name, case)
+                        except Exception as e:
+                            fail(klass, "%s: intersection raised %r" % (name, e), case)
+                    for m in ("length", "area", "volume"):
+                        if hasattr(o, m) and kind in ("Segment", "Polygon", "Polyhedron"):
+                            try:
+                                if not close(getattr(o, m)(), getattr(fresh, m)()):
+                                    fail(klass, "%s: %s() = %r, fresh object %r" % (name, m, getattr(o, m)(), getattr(fresh, m)()), case)
+                            except Exception as e:
+                                fail(klass, "%s: %s() raised %r" % (name, m, e), case)
+                    if kind == "Polyhedron":
+                        try:
+                            if not close(g.volume(o), g.volume(fresh)):
+                                fail(klass, "%s: volume(x) = %r, fresh object %r" % (name, g.volume(o), g.volume(fresh)), case)
+                        except Exception as e:
+                            fail(klass, "%s: volume(x) raised %r" % (name, e), case)
+                if len(samples) < 2:
+                    samples.append(dict(kind=kind, history=hist))
+            # move back restores an equal object
+            try:
+                back = recv.move(g.Vector(*[O.to_number(-c, "float") for c in total]))
+                orig = O.to_lib(ex, "float")
+                ev += 1
+                classes.add("%s:move back" % kind)
+                if not (recv == orig and back == orig):
+                    fail("%s:move back" % kind, "moving back by the negated total does not restore an equal object", dict(kind=kind, obj=[str(x)[:300] for x in ex[1:]], history=hist))
+            except Exception as e:
+                fail("%s:move back" % kind, "move back raised %r" % (e,), dict(kind=kind, history=hist))
+    return dict(evaluations=ev, classes=sorted(classes), failures=failures, samples=samples)
+
+
+def bounded(tier, seed):
+    n_obj, n_hist = (3, 3) if tier == "quick" else (10, 10)
+    return [("move histories on all seven types against fresh objects", bounded_histories, (seed, n_obj, n_hist), 3000)]
+
+
+def replay_case(case):
+    r = bounded_histories(0, 3, 3)
+    return dict(fails=bool(r["failures"]), observed=[f["what"] for f in r["failures"][:3]])
